@@ -25,12 +25,12 @@ K = 10000
 BASE = dict(ActStrict=True, ShiftByMin=True, LatentCPs=set(), DoEmit=True, Shard=0, NShards=1)
 DEEP_SHARDS = 64          # deep3 has about a million inputs (each exported with ~10 descriptions): one shard of 64 by VERIF_SEED
 CFG = {
-    "quick2": dict(Temps={0, 100, 200}, CPs={1, 2}, DTCs={0, 50}, MaxStreams=2, NZones=2, Ladders={0, 1, 2, 3, 4, 6}),
+    "quick2": dict(Temps={0, 100, 200}, CPs={1, 2}, DTCs={0, 50}, MaxStreams=2, NZones=2, Ladders={0, 1, 2, 3, 4, 6, 7, 8}),
     "quick3": dict(Temps={0, 100, 200}, CPs={1, 2}, DTCs={0, 50}, MaxStreams=3, NZones=2, Ladders={0, 1, 2}),
     "near": dict(Temps={120, 130, 140}, CPs={1, 2}, DTCs={0}, MaxStreams=2, NZones=2, Ladders={5}),
     # isothermal (latent) streams: 1-unit wide in the specification, passed with supply == target where the code's own rule applies
     "latent": dict(Temps={0, 100, 200}, CPs={1}, DTCs={0, 50}, LatentCPs={150}, MaxStreams=2, NZones=2, Ladders={0, 2}),
-    "deep3": dict(Temps={0, 100, 200, 300}, CPs={1, 2}, DTCs={0, 50}, MaxStreams=3, NZones=3, Ladders={0, 1, 2, 3, 4, 6}),
+    "deep3": dict(Temps={0, 100, 200, 300}, CPs={1, 2}, DTCs={0, 50}, MaxStreams=3, NZones=3, Ladders={0, 1, 2, 3, 4, 6, 7, 8}),
 }
 EMB_BASE = Emb("native", 100.0, 0.01, 1.0, True)
 EMB_SHIFT = Emb("native-101.5K", -1.5, 0.01, 1.0, True)   # lattice 150 (a ladder level / stream bound) maps to exactly 0.0
@@ -63,12 +63,25 @@ def _init():
 
 
 def zlabel(k, nest):
+    if nest == "subsite":
+        return "North/Z1" if k == 1 else f"Z{k}"          # zone 1 lives in a site inside the site
     if nest == "dup":
         return f"A{k}/X"           # every zone k becomes area A<k> with one sub-zone, and all sub-zones share the name X
-    return f"Z{k}/U{k}/V{k}" if (nest and k == 2) else f"Z{k}"
+    return f"Z{k}/U{k}/V{k}" if (nest is True and k == 2) else f"Z{k}"
 
 
-def request(S, z, ladder, emb: Emb, with_units=False, nest=False):
+def zone_tree_for(z, nest):
+    """explicit zone trees of the descriptions "tree" (flat) and "subsite" (a site inside the site)"""
+    zs = sorted(set(z))
+    leaf = lambda k: dict(name=f"Z{k}", type="Process Zone", children=None)
+    if nest == "subsite":
+        kids = [dict(name="North", type="Site", children=[leaf(1)])] + [leaf(k) for k in zs if k != 1]
+    else:
+        kids = [leaf(k) for k in zs]
+    return dict(name="Site", type="Site", children=kids)
+
+
+def request(S, z, ladder, emb: Emb, with_units=False, nest=False, twin=0):
     def num(v, u):
         return {"value": v, "units": u} if with_units else v
     streams = []
@@ -78,13 +91,17 @@ def request(S, z, ladder, emb: Emb, with_units=False, nest=False):
         t_sup, t_tar = emb.T(ts), emb.T(tt)
         if emb.native_latent and hi - lo == 1 and s["k"] == "C":
             t_tar = t_sup            # an isothermal stream: the code's own "supply == target means a 0.01 K latent stream" rule
-        streams.append(dict(zone=zlabel(z[i], nest), name=f"S{i+1}", t_supply=num(t_sup, "degC"), t_target=num(t_tar, "degC"),
+        name = f"S{i}" if (twin and i == twin) else f"S{i+1}"       # the second of two identical parallel branches repeats the first one's row
+        streams.append(dict(zone=zlabel(z[i], nest), name=name, t_supply=num(t_sup, "degC"), t_target=num(t_tar, "degC"),
                             heat_flow=num(emb.Q(s["cp"] * (hi - lo)), "kW"), dt_cont=num(emb.dT(s["dtc"]), "degC"), htc=num(1.0, "kW/m2K")))
     # a declared (installed) duty on the utility is legal input and must not influence targeting; inactive utilities must be ignored
     utils = [dict(name=u["name"], type=u["type"], t_supply=num(emb.T(u["ts"]), "degC"), t_target=num(emb.T(u["tt"]), "degC"),
                   heat_flow=num(emb.Q(70.0), "kW"), dt_cont=num(0.0, "degC"), htc=num(1.0, "kW/m2K"), price=num(1.0, "$/MWh"),
                   active=bool(u.get("active", True))) for u in ladder]
-    return dict(streams=streams, utilities=utils, options={"DT_CONT": emb.dT(50), "DT_PHASE_CHANGE": emb.dT(10)})
+    req = dict(streams=streams, utilities=utils, options={"DT_CONT": emb.dT(50), "DT_PHASE_CHANGE": emb.dT(10)})
+    if nest in ("tree", "subsite"):
+        req["zone_tree"] = zone_tree_for(z, nest)
+    return req
 
 
 def fx(x):
@@ -98,7 +115,7 @@ def project(out, emb: Emb, nest=False):
         zname, _, kind = t.name.partition("/")
         kind = {"Direct Integration": "DI", "Total Process Target": "TZ", "Total Site Target": "TS"}.get(kind, kind)
         zone = 0 if zname == "Site" else int(zname[1:]) if zname[:1] in "ZVA" and zname[1:].isdigit() else -1
-        if nest and zname == "Z2":
+        if nest is True and zname == "Z2":
             zone = -1          # intermediate zone of the nested description (the leaf V2 plays zone 2)
         ct, ht = t.temp_pinch.cold_temp, t.temp_pinch.hot_temp
         if ht is None:
@@ -167,11 +184,11 @@ def graphs_differ(base_sig, var_sig, g, emb_b: Emb, emb_v: Emb):
     return None
 
 
-def one_run(g, S, z, ladder, emb, extra_checks):
+def one_run(g, S, z, ladder, emb, extra_checks, twin=0):
     run = dict(g=g, S=S, z=z, recs=[], err="", dtDefault=60, py=[])
     try:
-        nest = "dup" if g == "dup" else g == "nest"
-        req = request(S, z, ladder, emb, with_units=(g == "perm"), nest=nest)
+        nest = g if g in ("dup", "tree", "subsite") else g == "nest"
+        req = request(S, z, ladder, emb, with_units=(g == "perm"), nest=nest, twin=twin)
         out, mz = _OP["service"](req, project_name="Site", is_return_full_results=True)
         recs = project(out, emb, nest)
         # C14: exactly one direct-integration record per site / process zone of the prepared tree
@@ -205,7 +222,7 @@ def one_run(g, S, z, ladder, emb, extra_checks):
                 return True
             if not finite(back) or not finite(out.model_dump()):
                 run["py"].append("C14.only_finite_numbers")
-            out2 = _OP["service"](request(S, z, ladder, emb, with_units=(g == "perm"), nest=nest), project_name="Site")
+            out2 = _OP["service"](request(S, z, ladder, emb, with_units=(g == "perm"), nest=nest, twin=twin), project_name="Site")
             if out2.model_dump_json() != js:
                 run["py"].append("C14.repeat_call_identical")
             if set(out.graphs or {}) != {t.name for t in out.targets}:
@@ -221,7 +238,7 @@ def drive(args):
     runs = [one_run("base", case["S"], case["z"], lad, EMB_BASE, True)]
     for v in case["variants"]:
         emb = EMB_SHIFT if v["g"] == "translate" else EMB_SCALE if v["g"] == "scale" else EMB_BASE
-        runs.append(one_run(v["g"], v["S"], v["z"], lad, emb, False))
+        runs.append(one_run(v["g"], v["S"], v["z"], lad, emb, False, twin=v.get("twin", 0)))
     # C12 on graph data (harness-side float comparison; records are compared by TLC)
     embs = {"translate": EMB_SHIFT, "scale": EMB_SCALE}
     bsig = runs[0].pop("gsig", None)
@@ -331,7 +348,7 @@ def site_leg(run, tier, names, accept):
         run.add_tlc(res, "SiteGen/" + name)
         cases = res.cases
         if name == "quick2":
-            cases = sample(cases, 1000, 2)
+            cases = sample(cases, 1200, 2)
         if name == "quick3":
             cases = sample(cases, 200, 3)
         if name == "latent":
